@@ -1,7 +1,8 @@
 (* The constants the model of sm4_gcm.go hard-codes are the constants of the source (Gen/SM4Consts.v): the
-   reduction byte 0xe1 and the 127 of multiplication, findYi / Rightshift shifts, the length-block shifts 56..0,
+   length-block shifts 56..0,
    the factor 8, 96 and 00 00 00 01 of GetY0, inc32's 4-byte bound, t = 128, BlockSize; the literal sequences of
-   all functions of sm4_gcm.go (no semantic tie: ANY changed integer constant stops this file from compiling);
+   all functions of sm4_gcm.go except addition, Rightshift, findYi, MSB, multiplication (those five: semantic tie, SM4/GCMCodeTie.v; the others no
+   semantic tie: ANY changed integer constant stops this file from compiling);
    and sm4_gcm.go declares no package-level variable.  Restated in Props/C12.v. *)
 From Coq Require Import List NArith Arith String.
 From GmsmVerif Require Import Lib.Outcome Gen.SM4Tables Gen.SM4Consts SM4.ModesModel SM4.GCMModel SM4.SM4ConstsBlock.
@@ -9,31 +10,16 @@ Import ListNotations.
 Local Open Scope N_scope.
 
 (* ---------- sm4_gcm.go ------------------------------------------------------------------------------------------- *)
-Lemma BlockSize_at_source : GCMModel.BlockSize = N.to_nat gen_BlockSize /\ GCMModel.BlockSize = nlit gen_lits_multiplication 0.
-Proof. split; reflexivity. Qed.
-
-(* R[0] = 0xe1; for i := 0; i <= 127; i++; V[BlockSize-1] & 0x01 *)
-Lemma multiplication_at_source X Y :
-  let g := gen_lits_multiplication in
-  R_bytes = lit g 2 :: zeros (nlit g 0 - 1) /\
-  multiplication X Y = mult_loop (S (nlit g 6)) (nlit g 5) Y (zeros (nlit g 3)) (copy16 X) /\
-  (forall V, mult_step_V V = if N.eqb (N.land (nth (nlit g 8 - nlit g 9) V 0) (lit g 10)) (lit g 11) then Rightshift V
-                             else addition (Rightshift V) R_bytes).
-Proof. repeat split; reflexivity. Qed.
-
-(* V[i] = V[i] >> 1; V[i] = ((V[i-1] & 0x01) << 7) | V[i] *)
-Lemma Rightshift_at_source prev v r :
-  let g := lit gen_lits_Rightshift in
-  rightshift_from prev (v :: r) = N.lor (N.shiftl (N.land prev (g 5%nat)) (g 6%nat) mod 256) (N.shiftr v (g 2%nat)) :: rightshift_from v r.
+Lemma BlockSize_at_source : GCMModel.BlockSize = N.to_nat gen_BlockSize.
 Proof. reflexivity. Qed.
 
-(* temp = Y[i/8]; temp = temp >> (7 - i%8); temp & 0x01 == 1 *)
-Lemma findYi_at_source Y i :
-  let g := gen_lits_findYi in
-  findYi Y i = (let temp := nth (i / nlit g 0) Y 0 in
-                let temp := N.shiftr temp (N.of_nat (nlit g 1 - i mod nlit g 2)) in
-                if N.eqb (N.land temp (lit g 3)) (lit g 4) then lit g 5 else lit g 6).
-Proof. reflexivity. Qed.
+(* multiplication: no positional fingerprint any more (R[0] = 0xe1, the bounds 0..127, V[BlockSize-1] & 0x01): the
+   statements in front of its loop, the loop header and the loop body at every index are regenerated (Gen/GCMCode.v) and
+   proved to be the model's (SM4/GCMCodeTieMult.v, C12_mult_code_is_model). *)
+
+(* Rightshift, findYi, addition (and MSB below): no positional fingerprint any more.  They are tied semantically - the translator
+   target gcmcode regenerates their bodies (Gen/GCMCode.v) and SM4/GCMCodeTie.v proves the regenerated functions equal
+   to the model for all byte inputs (C12_leaf_code_is_model) - so a behaviour-preserving rewrite of them is quiet. *)
 
 (* calculateLenToBytes: (len >> 56) & 0xff ... (len >> 0) & 0xff; lengths in bits: len(A)*8 *)
 Definition ghash_len_shifts : list N := map (fun k => lit gen_lits_GHASH (90 + 3 * k)) (seq 0 8).
@@ -79,11 +65,7 @@ Lemma carry_inc_at_source b r :
                        if N.eqb b' (lit gen_lits_incr 4) then b' :: carry_inc r else b' :: r.
 Proof. reflexivity. Qed.
 
-(* MSB: S[:len/8]; t := 128 *)
-Lemma MSB_at_source len S :
-  MSB len S = if Nat.leb (len / nlit gen_lits_MSB 0) (List.length S) then Ok (firstn (len / nlit gen_lits_MSB 0) S) else Panic.
-Proof. reflexivity. Qed.
-
+(* MSB: S[:len/8] - semantic tie (SM4/GCMCodeTie.v, gen_MSB_is_model), no fingerprint; t := 128 *)
 Lemma tag_length_at_source : nlit gen_lits_GCMEncrypt 42 = 128%nat /\ nlit gen_lits_GCMDecrypt 15 = 128%nat.
 Proof. split; reflexivity. Qed.
 
@@ -101,20 +83,10 @@ Lemma lits_gcm_frozen :
   [16; 16] /\
   gen_lits_GetY0 =
   [8; 96; 0; 0; 0; 1; 0; 16] /\
-  gen_lits_MSB =
-  [8] /\
-  gen_lits_Rightshift =
-  [1; 0; 1; 0; 1; 1; 7] /\
   gen_lits_Sm4GCM =
   [16] /\
-  gen_lits_addition =
-  [0] /\
-  gen_lits_findYi =
-  [8; 7; 8; 1; 1; 1; 0] /\
   gen_lits_incr =
-  [16; 1; 4; 1; 0; 1; 1; 16; 1; 16; 16; 16; 16; 16] /\
-  gen_lits_multiplication =
-  [16; 0; 225; 16; 16; 0; 127; 1; 16; 1; 1; 0].
+  [16; 1; 4; 1; 0; 1; 1; 16; 1; 16; 16; 16; 16; 16].
 Proof. repeat split; reflexivity. Qed.
 
 (* ---------- the consumer: the GM TLS cipher-suite table (Gen/TLSSuites.v, translator target tlssuites) --------------- *)
